@@ -472,7 +472,9 @@ def check_aggregation(ctx, cls):
         reads = list(reads) + list(r2)
     carried = sorted({n_ for n_, _ in reads})
     if extra and not carried:
-        raise AnalysisError('check_prior rejects values under further conditions (%s): not analysed' % ' and '.join(extra[0][3]))
+        # a further rejection that depends on the parameter at hand only: whether it is right is a question about the family's support,
+        # which the density and support rules (R16.1 / R16.2, evaluated through check_prior's callees) answer - not this rule
+        ctx.note('check_prior rejects values under further conditions (%s): left to the density / support rules' % ' and '.join(extra[0][3]))
     ctx.ob('R16.3-aggregation', 'per-parameter', not carried, where,
            'what is decided for one parameter depends on that parameter only: no variable other than the running sum is carried from one '
            'loop iteration into the next', '' if not carried else 'carried across iterations: %s (first read at %s)' % (
